@@ -5,8 +5,10 @@ use rayon::prelude::*;
 
 pub fn run(ctx: &Ctx) {
     let jobs: Vec<Box<dyn Fn() + Sync + Send>> = vec![
+        Box::new(|| crate::c07::explore(ctx, &obs::fi_roundtrip)),
         Box::new(|| crate::c08::explore(ctx, &obs::cm_roundtrip)),
         Box::new(|| crate::c09::explore(ctx, &obs::bloom_roundtrip)),
+        Box::new(|| crate::c10::explore(ctx, &obs::td_roundtrip)),
     ];
     jobs.par_iter().for_each(|j| j());
 }
